@@ -21,6 +21,11 @@ def livePc : WPc → Bool
   | .inEmit | .w1 _ | .w2 _ => true
   | _ => false
 
+/-- pcs after the inner terminal is over (P was closed, or never opened) -/
+def postPc : WPc → Bool
+  | .closed _ | .wEnd | .cancelC | .pwClose _ | .done => true
+  | _ => false
+
 /-- pcs after the inner terminal failed -/
 def failPc : WPc → Bool
   | .closeP false | .closed false | .cancelC | .pwClose false | .done => true
@@ -42,16 +47,18 @@ structure Basic (cfg : Cfg) (s : St) : Prop where
   ret_done : cfg.fixJoin = true → s.t = .ret → s.w = .done
   dropped_pc : s.dropped = true → failPc s.w = true ∧ s.pwClosed ≠ some true
   ok_cursor : (okPc s.w = true ∨ s.pwClosed = some true) → s.cursor = cfg.n
+  closes_eq : s.closes = if s.pClosed then 1 else 0
+  post : postPc s.w = true → s.pOpened = s.pClosed
 
 theorem basic_init (cfg : Cfg) : Basic cfg (init cfg) := by
-  constructor <;> simp [init, pOpenPc, okPc, livePc, failPc]
+  constructor <;> simp [init, pOpenPc, okPc, livePc, failPc, postPc]
 
 set_option maxHeartbeats 4000000 in
 theorem basic_step {cfg : Cfg} {s s' : St} {l : Label} (h : Basic cfg s) (hs : step cfg s l = some s') :
     Basic cfg s' := by
-  obtain ⟨h1, h2, h3, h4, h5, h6, h7, h8, h9, h10, h10a, h10b, h11, h12⟩ := h
+  obtain ⟨h1, h2, h3, h4, h5, h6, h7, h8, h9, h10, h10a, h10b, h11, h12, h13, h14⟩ := h
   step_cases hs <;>
-    (constructor <;> (try (simp_all [St.sctx, pOpenPc, okPc, livePc, failPc])) <;> (try grind))
+    (constructor <;> (try (simp_all [St.sctx, pOpenPc, okPc, livePc, failPc, postPc])) <;> (try grind))
 
 theorem basic {cfg : Cfg} {s : St} (hr : Reachable (sys cfg) s) : Basic cfg s :=
   invariant (sys := sys cfg) (basic_init cfg) (fun _ _ _ h hs => basic_step h hs) s hr
